@@ -804,7 +804,8 @@ fn try_into_window_frame(frame: WindowFrame<rq::Expr>) -> Result<sql_ast::Window
                 sql_ast::Value::Number(as_int.to_string(), false).into(),
             )))),
             _ => WindowFrameBound::Preceding(Some(Box::new(sql_ast::Expr::Value(
-                sql_ast::Value::Number((-as_int).to_string(), false).into(),
+                // (unsigned_abs: `-as_int` overflows for i64::MIN)
+                sql_ast::Value::Number(as_int.unsigned_abs().to_string(), false).into(),
             )))),
         })
     }
